@@ -84,7 +84,7 @@ fn check_pred_tree(what: &str, g: &G, src: &[usize], dist: &[usize], pred: &[Opt
             let ok = pred[v].is_some_and(|u| {
                 g.has(u, v)
                     && dist[u] != INF
-                    && dist[u] as u128 + g.w(u, v).unwrap() as u128 == dist[v] as u128
+                    && dist[u] as u128 + g.w(u, v).unwrap() as u64 as u128 == dist[v] as u128
             });
             ensure!(
                 format!("{what}: reachable vertex {v} has a predecessor u with an arc u->{v} and dist(u) + w(u,{v}) = dist({v})"),
@@ -144,7 +144,7 @@ fn check_shortest_path(
                 p.windows(2).all(|w| g.has(w[0], w[1])),
                 format!("{p:?}")
             );
-            let wt: u128 = p.windows(2).map(|w| g.w(w[0], w[1]).unwrap() as u128).sum();
+            let wt: u128 = p.windows(2).map(|w| g.w(w[0], w[1]).unwrap() as u64 as u128).sum();
             ensure_eq!(
                 format!("{what}: the path length/weight is the minimum over all targets; path {p:?}"),
                 b as u128,
@@ -469,7 +469,11 @@ impl Case for Trav {
             ("algorithm".into(), J::s(self.algo)),
             ("repr".into(), J::s(&self.repr)),
         ];
-        f.extend(self.g.fields(self.repr.starts_with("AdjacencyListWeighted")));
+        if self.repr == WUSIZE {
+            f.extend(self.g.fields_unsigned());
+        } else {
+            f.extend(self.g.fields(self.repr.starts_with("AdjacencyListWeighted")));
+        }
         f.push(("sources".into(), J::us(&self.sources)));
         f
     }
@@ -650,6 +654,64 @@ fn search_unweighted(
     None
 }
 
+/// HUGE usize weights whose simple-path sums from the sources still fit, but
+/// where a non-improving arc leading back onto the path would overflow if it
+/// were added unchecked, and the vertex behind the overflow-prone arc has a
+/// further out-neighbour that must still be reached. Weights are kept as bit
+/// patterns in the model's i64 (see `G::fields_unsigned`); the oracle sums
+/// in u128.
+fn huge_dijkstra_cases() -> Vec<(G, Vec<Vec<usize>>)> {
+    const M: u64 = u64::MAX;
+    assert_eq!(usize::MAX as u64, M, "64-bit usize expected");
+    let mk = |n: usize, arcs: &[(usize, usize, u64)]| {
+        let mut g = G::new(n);
+        for &(u, v, w) in arcs {
+            let _ = g.arcs.insert((u, v), w as i64);
+        }
+        g
+    };
+    let h = M / 2 - 100;
+    vec![
+        // the coordinator's example: distances [0, 10, MAX-2, MAX-1], order 0,1,2,3
+        (
+            mk(4, &[(0, 1, 10), (1, 2, M - 12), (2, 1, 3), (2, 3, 1)]),
+            vec![vec![0], vec![0, 3], vec![3, 0]],
+        ),
+        // same gadget, the forward arc (head 1) listed before the back arc (head 3)
+        (
+            mk(4, &[(0, 3, 10), (3, 2, M - 12), (2, 3, 3), (2, 1, 1)]),
+            vec![vec![0], vec![0, 1], vec![1, 0]],
+        ),
+        // the back arc returns to the source itself
+        (mk(3, &[(0, 1, M - 5), (1, 0, 7), (1, 2, 2)]), vec![vec![0], vec![0, 2]]),
+        // zero-weight arcs around the heavy one
+        (
+            mk(4, &[(0, 1, 0), (1, 2, M - 1), (2, 0, 5), (2, 3, 0)]),
+            vec![vec![0], vec![0, 3], vec![3, 0]],
+        ),
+        // a direct heavy arc competes with the heavy two-step route
+        (
+            mk(4, &[(0, 1, 10), (0, 2, M - 3), (1, 2, M - 12), (2, 0, 9), (2, 3, 1)]),
+            vec![vec![0], vec![0, 1]],
+        ),
+        // two gadgets chained: 10 + h + 1 + h + 1 = MAX - 188
+        (
+            mk(6, &[(0, 1, 10), (1, 2, h), (2, 1, M - h), (2, 3, 1), (3, 4, h), (4, 3, 1000), (4, 5, 1)]),
+            vec![vec![0], vec![0, 5], vec![5, 0]],
+        ),
+        // chained, ids chosen so that the forward arcs are listed first
+        (
+            mk(6, &[(0, 5, 10), (5, 4, h), (4, 5, M - h), (4, 3, 1), (3, 2, h), (2, 3, 1000), (2, 1, 1)]),
+            vec![vec![0], vec![0, 1]],
+        ),
+        // two sources, each in front of its own gadget (sums stay separate)
+        (
+            mk(7, &[(0, 1, 10), (1, 2, M - 12), (2, 1, 3), (2, 3, 1), (4, 5, M - 40), (5, 4, 50), (5, 6, 30)]),
+            vec![vec![0, 4], vec![4, 0], vec![4]],
+        ),
+    ]
+}
+
 fn search_dijkstra(prop: &'static str, random_n: usize, rng: &mut Rng, ctx: &mut Ctx) -> Option<J> {
     for order in 1..=3usize {
         let np = order * (order - 1);
@@ -670,6 +732,24 @@ fn search_dijkstra(prop: &'static str, random_n: usize, rng: &mut Rng, ctx: &mut
         }
         if ctx.expired() {
             return None;
+        }
+    }
+    for (g, source_lists) in huge_dijkstra_cases() {
+        for sources in source_lists {
+            // the same precondition test that --replay applies
+            if largest_simple_path_sum_unsigned(&g, &sources) >= usize::MAX as u128 {
+                continue;
+            }
+            let c = Trav {
+                prop,
+                algo: "dijkstra",
+                repr: WUSIZE.to_string(),
+                g: g.clone(),
+                sources,
+            };
+            if let Some(f) = ctx.eval(&c) {
+                return Some(f);
+            }
         }
     }
     if let Some(f) = search_structured(prop, "dijkstra", ctx) {
@@ -792,9 +872,17 @@ pub fn replay(prop: &str, j: &J) -> Result<Option<J>, String> {
         if repr != WUSIZE {
             return Err(format!("Dijkstra needs {WUSIZE}"));
         }
-        let total: u128 = g.arcs.values().map(|&w| w as u128).sum();
-        if total > usize::MAX as u128 {
-            return Err("path sums must fit in usize".into());
+        // precondition of C03 / C05: every simple-path sum from a source fits
+        // in usize (and stays below the "unreachable" sentinel usize::MAX).
+        // Cheap sufficient test first, exact enumeration for small orders.
+        let total: u128 = g.arcs.values().map(|&w| w as u64 as u128).sum();
+        if total >= usize::MAX as u128 {
+            if g.order() > 10 {
+                return Err("huge weights are only replayed up to order 10 (exact path-sum check)".into());
+            }
+            if largest_simple_path_sum_unsigned(&g, &sources) >= usize::MAX as u128 {
+                return Err("simple-path sums from the sources must stay below usize::MAX".into());
+            }
         }
     }
     Ok(crate::eval_case(&Trav {
